@@ -23,7 +23,7 @@ ASSUMPTIONS = ['answers and inputs are unique tokens so that each entry message 
                'totals compared at 1e-9; among equally good assignments / lists any may be reported']
 
 PALETTE = [0, 0, 0.1, 1 / 3., 0.45, 0.5, 0.7, 1, 1]
-MSG_RE = re.compile(r'T/A=([^/|\n]+)/I=([^/|\n]+)')
+MSG_RE = re.compile(r'T/A=([^/|\n]+)/I=([^/|\n]*)')
 TAP = {'solves': 0, 'bad': []}
 
 
@@ -233,6 +233,22 @@ def run_flat(ctx):
         g = ListGrader(answers=answers[0] if nlists == 1 else tuple(answers), subgraders=subgraders, ordered=ordered,
                        partial_credit=partial_credit, debug=debug, **({'grouping': perm_grouping} if perm_grouping else {}))
         base_inputs = ['I%d' % j for j in range(n)]
+        if rng.random() < 0.15:
+            # one box left blank: what a blank earns is for the subgrader to say (here: whatever the table says)
+            blank_at = rng.randrange(n)
+            for key_ in list(table):
+                if key_[1] == 'I%d' % blank_at:
+                    table[(key_[0], '')] = table.pop(key_)
+            for l_ in lists:
+                for key_ in list(l_[1]):
+                    if key_[1] == 'I%d' % blank_at:
+                        l_[1][(key_[0], '')] = l_[1].pop(key_)
+            base_inputs[blank_at] = ''
+            sub = lib.TableGrader(table=table, ids=True, msg_on_zero=True)
+            subgraders = [lib.TableGrader(table=table, ids=True) for _ in range(n)] if use_list else sub
+            g = ListGrader(answers=answers[0] if nlists == 1 else tuple(answers), subgraders=subgraders, ordered=ordered,
+                           partial_credit=partial_credit, debug=debug, **({'grouping': perm_grouping} if perm_grouping else {}))
+            ctx.count('blank_box_cases')
         perms = list(itertools.permutations(base_inputs))
         if len(perms) > ctx.pick(60, 720):
             perms = rng.sample(perms, ctx.pick(60, 720))
@@ -265,7 +281,7 @@ def run_flat(ctx):
             if len(bests) > 1:
                 ctx.violation('C05:unordered:total_depends_on_input_order', 'totals over permutations: %r' % sorted(bests), wit0)
             # non-triviality: at least two assignments with different totals
-            P = [[eff_credit(lists[0][0][a], lists[0][1], 'I%d' % j) for j in range(n)] for a in range(n)]
+            P = [[eff_credit(lists[0][0][a], lists[0][1], base_inputs[j]) for j in range(n)] for a in range(n)]
             if assign.max_profit(P) - (-assign.max_profit([[-x for x in r] for r in P])) > 1e-9:
                 ctx.count('nontrivial_unordered')
                 nontrivial = True
